@@ -36,6 +36,7 @@ func ProfileCodec(avoid map[string]string) *Profile {
 func ProfileMatrix(avoid map[string]string) *Profile {
 	p := ProfileFull(avoid)
 	p.Name = "matrix"
+	p.TwinHeaders = true
 	p.CompanionPackage = true
 	p.ForeignBodies = true
 	p.HostileNames = true
